@@ -38,10 +38,10 @@ type cscen struct {
 }
 
 var cscens = map[string]cscen{
-	"sameUserTCP": {threads: [][]op{{{"T", "a", 1, 2}}, {{"T", "a", 4, 8}}}, snaps: []string{"SAR", "SAR"}},
-	"mixedUsers": {threads: [][]op{{{"T", "", 1, 2}, {"D", "b", 4, 8}}, {{"U", "a", 16, 32}, {"T", "b", 64, 128}}}, snaps: []string{"SAR", "S"}},
-	"newUserMidRun": {threads: [][]op{{{"D", "a", 1, 2}, {"U", "b", 4, 8}}, {{"T", "b", 16, 32}}}, snaps: []string{"SAR", "SAR"}},
-	"udpBoth": {threads: [][]op{{{"D", "a", 1, 2}, {"U", "a", 4, 8}}, {{"U", "a", 16, 32}, {"D", "", 64, 128}}}, snaps: []string{"S", "SAR"}},
+	"sameUserTCP":     {threads: [][]op{{{"T", "a", 1, 2}}, {{"T", "a", 4, 8}}}, snaps: []string{"SAR", "SAR"}},
+	"mixedUsers":      {threads: [][]op{{{"T", "", 1, 2}, {"D", "b", 4, 8}}, {{"U", "a", 16, 32}, {"T", "b", 64, 128}}}, snaps: []string{"SAR", "S"}},
+	"newUserMidRun":   {threads: [][]op{{{"D", "a", 1, 2}, {"U", "b", 4, 8}}, {{"T", "b", 16, 32}}}, snaps: []string{"SAR", "SAR"}},
+	"udpBoth":         {threads: [][]op{{{"D", "a", 1, 2}, {"U", "a", 4, 8}}, {{"U", "a", 16, 32}, {"D", "", 64, 128}}}, snaps: []string{"S", "SAR"}},
 	"threeCollectors": {threads: [][]op{{{"T", "a", 1, 2}}, {{"T", "b", 4, 8}}, {{"T", "", 16, 32}}}, snaps: []string{"SAR"}},
 }
 
